@@ -614,7 +614,7 @@ func init() {
 				for _, line := range []int{1, 144} {
 					for _, t := range offAt {
 						for onFor := 0; onFor < 140; onFor++ {
-							if !yield(c17Case{Mode: "offon", Line: line, From: t, To: t + 1, Len: 1, OnFor: onFor}) {
+							if !yield(c17Case{Mode: "offon", Line: line, From: t, To: t + 1, Len: n, OnFor: onFor}) {
 								return
 							}
 						}
@@ -623,7 +623,7 @@ func init() {
 				// from power-on, no transfer ever requested: the program at every cycle 0-179, then 180 quiet cycles
 				for _, off := range []bool{true, false} {
 					for from := 0; from < 180; from += 6 {
-						if !yield(c17Case{Mode: "poweron", From: from, To: from + 6, Len: 1, Off: off, Idle: 180}) {
+						if !yield(c17Case{Mode: "poweron", From: from, To: from + 6, Len: n, Off: off, Idle: 180}) {
 							return
 						}
 					}
